@@ -195,12 +195,19 @@ func doGo(goCommand string) {
 	targetDepth := MaxSearchDepth
 
 	var err error
+	// value following the keyword at tokens[i]
+	intAfter := func(i int) (int, error) {
+		if i+1 >= len(tokens) {
+			return 0, fmt.Errorf("missing value after %v", tokens[i])
+		}
+		return strconv.Atoi(tokens[i+1])
+	}
 
 out:
 	for i, token := range tokens {
 		switch token {
 		case uMoveTime:
-			moveTimeMillis, err = strconv.Atoi(tokens[i+1])
+			moveTimeMillis, err = intAfter(i)
 			if err != nil {
 				return
 			}
@@ -211,32 +218,32 @@ out:
 			// Ignore rest of params
 			break out
 		case uWtime:
-			whiteMillisLeft, err = strconv.Atoi(tokens[i+1])
+			whiteMillisLeft, err = intAfter(i)
 			if err != nil {
 				return
 			}
 		case uBtime:
-			blackMillisLeft, err = strconv.Atoi(tokens[i+1])
+			blackMillisLeft, err = intAfter(i)
 			if err != nil {
 				return
 			}
 		case uWinc:
-			whiteMillisIncrement, err = strconv.Atoi(tokens[i+1])
+			whiteMillisIncrement, err = intAfter(i)
 			if err != nil {
 				return
 			}
 		case uBinc:
-			blackMillisIncrement, err = strconv.Atoi(tokens[i+1])
+			blackMillisIncrement, err = intAfter(i)
 			if err != nil {
 				return
 			}
 		case uMovesToGo:
-			fullMovesToGo, err = strconv.Atoi(tokens[i+1])
-			if err != nil {
+			fullMovesToGo, err = intAfter(i)
+			if err != nil || fullMovesToGo < 1 {
 				return
 			}
 		case uDepth:
-			targetDepth, err = strconv.Atoi(tokens[i+1])
+			targetDepth, err = intAfter(i)
 			if err != nil || targetDepth < 1 {
 				return
 			}
